@@ -795,7 +795,7 @@ def native_verdict(case_op, nat):
         return False, f'{len(calls)} handler invocations'
     c = calls[0]
     for k, v in case_op.items():
-        if k in ('op', 'endpoint', 'ret', 'ret_opt'):
+        if k in ('op', 'endpoint', 'ret', 'ret_opt', 'async_server'):
             continue
         if k == 'set_arg':
             if sorted(set(c.get(k) or [])) != sorted(set(v)):
@@ -922,6 +922,8 @@ class GenCase(Case):
     def concrete(self, m):
         op = Case.concrete(self, m)
         op['op'] = 'loopback_gen'
+        if getattr(self, 'async_server', False):
+            op['async_server'] = True
         for k, (kind, v) in self.syms.items():
             if kind == 'list_i32':
                 out = []
@@ -1103,6 +1105,7 @@ def run_generated(rep, tier):
         tok, ts = valid_token(st, 'token')
         c.args = [tok, path_arg, qp, header_arg]
         c.syms = {'path_arg': ('i32', path_arg), 'query_arg': ('str', qs), 'header_arg': ('i32', header_arg), 'token': ('token', ts)}
+        c.async_server = True
         run_case(rep, it, dec, prog, c, st, tenv, 'blocking:async-server')
         finish_engine(rep, it)
         st = St()
@@ -1114,6 +1117,7 @@ def run_generated(rep, tier):
         c.args = [bp]
         c.ret = rs
         c.syms = {'body_arg': ('str', bs), 'ret': ('str', rs)}
+        c.async_server = True
         run_case(rep, it, dec, prog, c, st, tenv, 'blocking:async-server')
         finish_engine(rep, it)
         st = St()
@@ -1131,6 +1135,7 @@ def run_generated(rep, tier):
         c.set_args = (0,)
         c.ret = it.opt(r_has, rs)
         c.syms = {'set_arg': ('set_str', [s_ for _, s_ in members]), 'opt_body': ('opt_str', (b_has, bs)), 'ret_opt': ('opt_str', (r_has, rs))}
+        c.async_server = True
         run_case(rep, it, dec, prog, c, st, tenv, 'blocking:async-server:set1')
         finish_engine(rep, it)
 
@@ -1150,6 +1155,8 @@ def run(rep, tier):
              {'op': 'loopback_gen', 'endpoint': 'g4', 'set_arg': [], 'opt_body': b'"x'.hex(), 'ret_opt': b'\xc3\xa9'.hex()},
              {'op': 'loopback_gen', 'endpoint': 'g4', 'set_arg': [''], 'opt_body': '', 'ret_opt': ''},
              {'op': 'loopback_gen', 'endpoint': 'g5', 'tok': 'a/b+c=', 'qt': 'x+/=='}, {'op': 'loopback_gen', 'endpoint': 'g5', 'tok': '~._-', 'qt': '0'}]
+    # the same requests against the async server flavour
+    twins += [dict(t, async_server=True) for t in twins]
     for op, nat in zip(twins, replay(twins)):
         rep.replayed += 1
         ok, why = native_verdict(op, nat)
